@@ -11,9 +11,20 @@ int g_idx2 ;
 
 #define GHOST_HAVOC()	do { int ghost_nd1, ghost_nd2 ; g_idx = ghost_nd1 ; g_idx2 = ghost_nd2 ; } while (0)
 
+#ifdef NATIVE_REPLAY
+/* native self replay (spec/native_shim.h): inputs take the counterexample's bit pattern, witnesses are no-ops */
+#define CANARY()			do { } while (0)
+#define REACH(cond, txt)	do { } while (0)
+#define INPUT(T, n)			T n ; do { unsigned long long verif_bits = REPLAY_BITS_##n ; memcpy (&n, &verif_bits, sizeof (n)) ; } while (0)
+void NATIVE_ENTRY (void) ;
+int main (void) { NATIVE_ENTRY () ; puts ("not reproduced") ; return 0 ; }
+#else
 /* every harness ends with this: it must FAIL, otherwise the unit is vacuous */
 #define CANARY()		__CPROVER_assert (0, "canary")
 /* per-case reachability witness: must FAIL too */
 #define REACH(cond, txt)	do { if (cond) __CPROVER_assert (0, "expected-failure: " txt) ; } while (0)
+/* an unconstrained harness input (replayable: see NATIVE_REPLAY above) */
+#define INPUT(T, n)			T n
+#endif
 
 #endif
